@@ -1797,3 +1797,170 @@ func falseForZero(g *ssa.Function, p *ssa.Parameter) bool {
 	}
 	return false
 }
+
+// ruleReadOffsetsNonNegative implements C09.R14 / C07.R8: a sign analysis with branch refinement over SSA. Every offset handed to
+// (*os.File).ReadAt in package files is shown to be non-negative: constants, sums of non-negative values, lengths, and values that
+// reach the use only over the edge of a comparison that excludes the negative case (`if x < 0 { x = 0 }` makes both inputs of the
+// merge non-negative). os.File.ReadAt fails with "negative offset" otherwise, and the reader turns that error into a panic.
+func ruleReadOffsetsNonNegative(c *Ctx, rule string) {
+	r := c.R
+	n := 0
+	for _, fn := range c.SrcFuncs("files") {
+		k := 0
+		instrsOf(fn, func(in ssa.Instruction) {
+			call, ok := in.(*ssa.Call)
+			if !ok {
+				return
+			}
+			sc := call.Call.StaticCallee()
+			if sc == nil || sc.Pkg == nil || sc.Pkg.Pkg.Path() != "os" || sc.Name() != "ReadAt" || len(call.Call.Args) != 3 {
+				return
+			}
+			n++
+			k++
+			off := call.Call.Args[2]
+			ob := r.Ob(rule, fmt.Sprintf("%s: ReadAt #%d is given a non-negative offset", fnName(fn), k), c.pos(call.Pos()))
+			if ok, why := c.nonNegAt(fn, off, call.Block(), 0, map[ssa.Value]bool{}); ok {
+				ob.OKnt("sign analysis: " + exprStr(off) + " is non-negative on every path to the call")
+			} else if strings.Contains(why, "WITNESS ") {
+				ob.Bad("the offset " + exprStr(off) + " can be negative: " + strings.Replace(why, "WITNESS ", "", 1) + "; os.File.ReadAt then fails with `negative offset` and the reader panics on that error")
+			} else {
+				ob.Und("the sign analysis could not show that " + exprStr(off) + " is non-negative (" + why + ")")
+			}
+		})
+	}
+	r.Floor(rule, "positioned reads of an os.File in package files", n, 1)
+}
+
+// nonNegAt: v is >= 0 whenever block `at` executes.
+func (c *Ctx) nonNegAt(fn *ssa.Function, v ssa.Value, at *ssa.BasicBlock, depth int, seen map[ssa.Value]bool) (bool, string) {
+	if depth > 12 {
+		return false, "too deep"
+	}
+	// a dominating comparison establishes v >= 0 at this block
+	for _, l := range domConds(fn, at) {
+		if b, ok := l.Cond.(*ssa.BinOp); ok && b.X == v {
+			if k, isC := constInt(b.Y); isC {
+				switch {
+				case b.Op == token.LSS && k <= 0 && !l.Pol, b.Op == token.GEQ && k >= 0 && l.Pol, b.Op == token.GTR && k >= -1 && l.Pol, b.Op == token.LEQ && k <= -1 && !l.Pol, b.Op == token.EQL && k >= 0 && l.Pol:
+					return true, ""
+				}
+			}
+		}
+	}
+	if k, ok := constInt(v); ok {
+		if k >= 0 {
+			return true, ""
+		}
+		return false, fmt.Sprintf("constant %d", k)
+	}
+	switch x := v.(type) {
+	case *ssa.Convert:
+		return c.nonNegAt(fn, x.X, at, depth+1, seen)
+	case *ssa.Call:
+		if b, ok := x.Call.Value.(*ssa.Builtin); ok && (b.Name() == "len" || b.Name() == "cap") {
+			return true, ""
+		}
+		// a helper of the repository all of whose returns are non-negative (`atLeastZero`)
+		if g := x.Call.StaticCallee(); g != nil && len(g.Blocks) > 0 && g.Pkg == fn.Pkg && g.Signature.Results().Len() == 1 {
+			all, nret := true, 0
+			why := ""
+			instrsOf(g, func(in ssa.Instruction) {
+				if ret, ok := in.(*ssa.Return); ok && len(ret.Results) == 1 {
+					nret++
+					if ok, w := c.nonNegAt(g, ret.Results[0], ret.Block(), depth+1, map[ssa.Value]bool{}); !ok {
+						all, why = false, w
+					}
+				}
+			})
+			if all && nret > 0 {
+				return true, ""
+			}
+			return false, "result of " + g.Name() + ": " + why
+		}
+		return false, "result of " + callName(&x.Call)
+	case *ssa.BinOp:
+		switch x.Op {
+		case token.ADD, token.MUL, token.QUO:
+			if ok, why := c.nonNegAt(fn, x.X, at, depth+1, seen); !ok {
+				return false, why
+			}
+			return c.nonNegAt(fn, x.Y, at, depth+1, seen)
+		case token.REM, token.AND:
+			return c.nonNegAt(fn, x.X, at, depth+1, seen)
+		case token.SUB:
+			// a - b with a dominating comparison b < a / b <= a (operands compared by value or, for reloaded fields, by rendering)
+			same := func(p, q ssa.Value) bool { return p == q || exprStr(p) == exprStr(q) }
+			for _, l := range domConds(fn, at) {
+				b, ok := l.Cond.(*ssa.BinOp)
+				if !ok {
+					continue
+				}
+				op := b.Op
+				if !l.Pol {
+					op = map[token.Token]token.Token{token.LSS: token.GEQ, token.GEQ: token.LSS, token.GTR: token.LEQ, token.LEQ: token.GTR}[op]
+				}
+				switch {
+				case (op == token.LSS || op == token.LEQ) && same(b.X, x.Y) && same(b.Y, x.X):
+					return true, ""
+				case (op == token.GTR || op == token.GEQ) && same(b.X, x.X) && same(b.Y, x.Y):
+					return true, ""
+				}
+			}
+			return false, "WITNESS " + exprStr(x) + " is a difference whose operands no dominating comparison relates"
+		}
+		return false, exprStr(x) + " is not bounded below"
+	case *ssa.Phi:
+		if seen[v] {
+			return true, "" // a loop-carried value: decided by its other inputs
+		}
+		seen[v] = true
+		for i, e := range x.Edges {
+			pred := x.Block().Preds[i]
+			// the edge pred -> phi block may itself be the excluding edge of a comparison on e
+			if iff, ok := pred.Instrs[len(pred.Instrs)-1].(*ssa.If); ok {
+				if b, ok := iff.Cond.(*ssa.BinOp); ok && b.X == e {
+					if k, isC := constInt(b.Y); isC {
+						onTrue := pred.Succs[0] == x.Block()
+						if (b.Op == token.LSS && k <= 0 && !onTrue) || (b.Op == token.GEQ && k >= 0 && onTrue) || (b.Op == token.GTR && k >= -1 && onTrue) || (b.Op == token.LEQ && k <= -1 && !onTrue) {
+							continue
+						}
+					}
+				}
+			}
+			if ok, why := c.nonNegAt(fn, e, pred, depth+1, seen); !ok {
+				return false, why
+			}
+		}
+		return true, ""
+	case *ssa.Parameter:
+		// decided at the call sites (within the package)
+		idx := -1
+		for i, p := range fn.Params {
+			if p == x {
+				idx = i
+			}
+		}
+		ncalls := 0
+		if idx >= 0 && depth < 6 && fn.Pkg != nil {
+			for _, caller := range c.SrcFuncs(fn.Pkg.Pkg.Name()) {
+				for _, cl := range callsTo(caller, fn) {
+					ncalls++
+					if idx >= len(cl.Call.Args) {
+						return false, "call with unexpected arity"
+					}
+					if ok, why := c.nonNegAt(caller, cl.Call.Args[idx], cl.Block(), depth+1, map[ssa.Value]bool{}); !ok {
+						return false, "argument of " + caller.Name() + ": " + why
+					}
+				}
+			}
+			if ncalls > 0 {
+				return true, ""
+			}
+		}
+		return false, "parameter " + x.Name() + " is not tested"
+	case *ssa.UnOp:
+		return false, exprStr(x) + " is not tested"
+	}
+	return false, exprStr(v)
+}
